@@ -309,6 +309,70 @@ def PubSubIqConfigure := pubsubQuery nsPubsubOwner "configure" ["jid", "node"]
 def PubSubIqDefault := pubsubQuery nsPubsub "default" ["jid", "node"]
 def PubSubIqOwnerDefault := pubsubQuery nsPubsubOwner "default" ["jid", "node"]
 
+/-! ### `QXmppStanza::Error` (src/base/QXmppStanza.cpp:557-640)
+
+`parse(errorElement)` loops over ALL children: in namespace `ns_stanza` a `<text/>` sets the text, any other tag sets the
+condition (unknown tag ⇒ `NoCondition`), so the LAST such child wins; the redirection URI is the text of a `gone` /
+`redirect` condition and `toXml` writes it only for those two.  `toXml` writes nothing at all when neither type nor
+condition is set.  `code` is an `int` written when `> 0`.  The `<text/>` carries a constant `xml:lang="en"`.
+Modelled as the `<error/>` child of a holder `<iq xmlns="jabber:client">` (what `QXmppStanza::parse` hands over is
+`firstChildElement(stanza, "error")`).
+Canonical values: the URI is empty unless the condition is gone/redirect (the getter may still return an URI parsed from an
+EARLIER `<gone/>`; it is never written).  Outside the model (left out of the correspondence by the harness, still under
+the model-independent oracles): the XEP-0363 children `<file-too-large/>` / `<retry/>`, and an `<error/>` with neither
+type nor condition but with `by`, `code` or text (the class then writes nothing and forgets them). -/
+
+def errorTypes : List Str := ["cancel", "continue", "modify", "auth", "wait"].map s
+
+def stanzaErrorFields : List Field := [
+  .attr (s "by") .str true, .attr (s "type") (.enum errorTypes) true, .attr (s "code") (.posInt 31) true,
+  .tagChild nsStanza true false stanzaConditions [s "text"] false true [4, 13],
+  .child { tag := s "text", ns := nsStanza, decl := true, anyNs := false, last := true, extra := [(s "xml:lang", s "en")] }
+    [.text .str] .wrapOmit]
+
+def StanzaError : Schema :=
+  { head := declHead "iq" nsClient, check := .unchecked, inh := [],
+    fields := [.child (anyHead "error" nsClient) stanzaErrorFields .wrapOmit] }
+
+/-! ### XEP-0045 `QXmppMucItem`, `QXmppMucAdminIq` (src/base/QXmppMucIq.cpp:179-245): affiliation and role are
+lower-cased before the lookup -/
+
+def nsMucAdmin := s "http://jabber.org/protocol/muc#admin"
+def mucItemFields : List Field := [
+  .attr (s "affiliation") (.enumL (["outcast", "none", "member", "admin", "owner"].map s)) true,
+  .attr (s "jid") .str true, .attr (s "nick") .str true,
+  .attr (s "role") (.enumL (["none", "visitor", "participant", "moderator"].map s)) true,
+  .child (anyHead "actor" []) [.attr (s "jid") .str true] .wrapOmit,
+  .textChild (anyHead "reason" []) .str true]
+def MucItem := unchecked { tag := s "item", ns := [], decl := false, anyNs := false } mucItemFields
+def MucAdminIq := iqPayload (declHead "query" nsMucAdmin) [
+  .many (anyHead "item" nsMucAdmin) [
+    .attr (s "affiliation") (.enumL (["outcast", "none", "member", "admin", "owner"].map s)) true,
+    .attr (s "jid") .str true, .attr (s "nick") .str true,
+    .attr (s "role") (.enumL (["none", "visitor", "participant", "moderator"].map s)) true,
+    .child (anyHead "actor" nsMucAdmin) [.attr (s "jid") .str true] .wrapOmit,
+    .textChild (anyHead "reason" nsMucAdmin) .str true] false]
+
+/-! ### `QXmppJingleReason` (src/base/QXmppJingleData.cpp:1091-1134)
+
+`parse` takes the first `<text/>`, the reason whose name comes FIRST IN THE ENUM among the children present, and the first
+child in the RTP-errors namespace.  The schema takes the first child (document order) bearing a known reason name; a
+`<reason/>` with two different reason names is outside the model (harness).  `toXml` writes nothing without a reason type
+(text / RTP condition alone are forgotten: outside the model as well). -/
+
+def nsJingle := s "urn:xmpp:jingle:1"
+def nsJingleRtpErrors := s "urn:xmpp:jingle:apps:rtp:errors:1"
+def jingleReasons : List Str := ["alternative-session", "busy", "cancel", "connectivity-error", "decline", "expired",
+  "failed-application", "failed-transport", "general-error", "gone", "incompatible-parameters", "media-error",
+  "security-error", "success", "timeout", "unsupported-applications", "unsupported-transports"].map s
+def jingleReasonFields : List Field := [
+  .textChild (anyHead "text" nsJingle) .str true,
+  .tagChild nsJingle false true jingleReasons [] true false [],
+  .enumChild nsJingleRtpErrors true false (["invalid-crypto", "crypto-required"].map s) false]
+def JingleReason : Schema :=
+  { head := { tag := s "x", ns := [], decl := false, anyNs := false }, check := .unchecked, inh := [],
+    fields := [.child { tag := s "reason", ns := nsJingle, decl := true, anyNs := true } jingleReasonFields .wrapOmit] }
+
 /-- every modelled class by the name the harness uses -/
 def all : List (String × Schema) := [
   ("SmEnable", SmEnable), ("SmEnabled", SmEnabled), ("SmResume", SmResume), ("SmResumed", SmResumed),
@@ -329,7 +393,8 @@ def all : List (String × Schema) := [
   ("PubSubIqUnsubscribe", PubSubIqUnsubscribe), ("PubSubIqSubscribe", PubSubIqSubscribe),
   ("PubSubIqOptions", PubSubIqOptions), ("PubSubIqCreate", PubSubIqCreate), ("PubSubIqDelete", PubSubIqDelete),
   ("PubSubIqPurge", PubSubIqPurge), ("PubSubIqConfigure", PubSubIqConfigure), ("PubSubIqDefault", PubSubIqDefault),
-  ("PubSubIqOwnerDefault", PubSubIqOwnerDefault)]
+  ("PubSubIqOwnerDefault", PubSubIqOwnerDefault),
+  ("StanzaError", StanzaError), ("MucItem", MucItem), ("MucAdminIq", MucAdminIq), ("JingleReason", JingleReason)]
 
 def find (name : String) : Option Schema := (all.find? (·.1 == name)).map (·.2)
 
